@@ -72,7 +72,11 @@ def main(argv):
         # conformance (E2-ii): every primitive of every recorded behaviour against the Impl transcription
         from . import tracefam
 
-        conf = tracefam.run_traces(tracefam.trace_inputs(args.tier, args.seed) if not args.replay else inputs, "drift", d, args.jobs)
+        try:
+            conf = tracefam.run_traces(tracefam.trace_inputs(args.tier, args.seed) if not args.replay else inputs, "drift", d, args.jobs)
+        except tlc.MachineryError as e:
+            # the Impl transcription could not even be evaluated on what the code did: that is drift, not a verdict and not a reason to hide one
+            conf = {"behaviours": 0, "events": 0, "drift": [{"conformance_run_failed": str(e)[:300]}], "states": 0, "generated": 0}
         for x in conf["drift"]:
             rep.add_drift(x)
         if not args.replay:
